@@ -108,7 +108,7 @@ class Flow(object):
     def add_name(self, name):
         # type: (Name) -> None
         name.scope = self.scope
-        if name.name in self.scope.globals:
+        if name.name in self.scope.globals and self.scope is not self.scope.top:
             self.scope.top.add_global(name)
         else:
             self.scope.locals.add(name.name)
